@@ -55,7 +55,7 @@ FSampleRule == /\ Ev.valid => (Ev.res = "Ok" /\ Ev.i >= 0 /\ Ev.i < Ev.len /\ Ev
                /\ (Ev.len = 0 \/ Ev.allzero) => Ev.res = "InsufficientNonZero"
 TFSample == /\ Ev.op = "fsample"
             /\ UNCHANGED <<sub, ws, res, ret>>
-            /\ (FSampleRule \/ PrintT(<<"TRACE-BAD", l, ToJson(Ev)>>))
+            /\ IF FSampleRule THEN TRUE ELSE PrintT(<<"TRACE-BAD", l, ToJson(Ev)>>)
 
 TInit == Init /\ l = 1
 TNext == /\ l <= Len(Rec)
